@@ -61,6 +61,28 @@ def build_coq(log=None):
         lock.close()
 
 
+def facts_diagnostics():
+    """Which obligation over the generated facts is false (evaluated from the definitions-only file FactsDefs.v)."""
+    if not vo_exists("Proofs/FactsDefs.v"):
+        return "Proofs/FactsDefs.vo missing"
+    outdir = os.path.join(COQ, "build", "diag_%d" % os.getpid())
+    os.makedirs(outdir, exist_ok=True)
+    src = os.path.join(outdir, "Diag.v")
+    with open(src, "w") as fh:
+        fh.write("From Coq Require Import String List.\nFrom BLE Require Import Generated.Facts Proofs.FactsDefs.\nOpen Scope string_scope.\nEval vm_compute in all_generated_obligations.\n")
+    rc, o, e = sh("timeout 120 coqc -R . BLE -w -all %s" % src, cwd=COQ, timeout=150)
+    import shutil
+    shutil.rmtree(outdir, ignore_errors=True)
+    return (o if rc == 0 else o + e)[-3000:]
+
+
+def build_errors(log):
+    out = []
+    for m in re.finditer(r'File "\./([^"]+)", line (\d+)[^\n]*\n(Error:[^\n]*(?:\n(?!make|COQ|File)[^\n]*){0,6})', log):
+        out.append("%s:%s %s" % (m.group(1), m.group(2), " ".join(m.group(3).split())[:300]))
+    return out
+
+
 def vo_exists(rel_v):
     return os.path.exists(os.path.join(COQ, rel_v[:-2] + ".vo"))
 
@@ -194,6 +216,11 @@ class Check:
     def prove(self):
         b = build_coq()
         self.build = b
+        if not b["ok"]:
+            errs = build_errors(b["log"])
+            self.notes["coq_build_errors"] = errs
+            if any("Proofs/Sched.v" in x or "Proofs/H5.v" in x or "Proofs/Heap.v" in x for x in errs):
+                self.notes["generated_obligations"] = facts_diagnostics()
         pf = check_property_file(self.pid)
         self.propfile = pf
         self.axioms = pf.get("axioms", [])
@@ -264,6 +291,8 @@ class Check:
             json.dump({"property": self.pid,
                        "what": "proof obligation or correspondence no longer checks; the property's oracle found no failing input",
                        "broken_obligations": broken,
+                       "coq_build_errors": self.notes.get("coq_build_errors"),
+                       "generated_obligations": self.notes.get("generated_obligations"),
                        "build_log": (self.build or {}).get("log", "")[-3000:]}, open(path, "w"), indent=1, default=str)
             lines.append("VIOLATION property=%s replay=%s no-failing-input-found" % (self.pid, path))
         tb = [
